@@ -59,6 +59,17 @@ def _work(args):
             pos = min(pos, len(comps) - 1)          # a 'last() ->' component stays last
         comps.insert(pos, L.when(cond, sig))
         nsig += 1
+    # an error-provoking component in a member (the configuration's policy for csvpaths is 'collect, print': the line does not match,
+    # a record is collected, the run goes on) - the joint machine handles it through Eval!Flush like a standalone run
+    if rng.random() < 0.3:
+        mc = rng.choice(grp["members"])
+        if mc["cfg"]["AND"] and not has_lookahead(mc["prog"]):
+            comps = mc["prog"]["comps"]
+            pos = rng.randint(0, len(comps))
+            if comps and comps[-1]["k"] == "when" and comps[-1]["args"][0]["name"] == "last":
+                pos = min(pos, len(comps) - 1)
+            ncols = max(len(r) for r in grp["records"]) if grp["records"] else 1
+            comps.insert(pos, L.err(L.hdr(rng.randint(0, max(0, ncols)))))
     for mc in grp["members"]:
         # look-ahead with control functions is a listed finding of C13; signals are only interesting in AND/OR without it
         nsig += signalise(rng, mc["prog"])
